@@ -1227,8 +1227,8 @@ def check_C20(ctx):
     return finish_with_proofs(ctx, {'values_swept_in_cxx': exhaustive})
 
 
-from props_objs import check_C12, check_C13, check_C14, check_C15
-CHECKS = {'C12': check_C12, 'C14': check_C14, 'C13': check_C13, 'C15': check_C15, 'C01': check_C01, 'C02': check_C02, 'C07': check_C07, 'C09': check_C09, 'C16': check_C16, 'C17': check_C17, 'C18': check_C18, 'C20': check_C20, 'C08': check_C08, 'C10': check_C10, 'C11': check_C11, 'C03': check_C03, 'C04': check_C04, 'C05': check_C05, 'C06': check_C06}
+from props_objs import check_C12, check_C13, check_C14, check_C15, check_C19
+CHECKS = {'C19': check_C19, 'C12': check_C12, 'C14': check_C14, 'C13': check_C13, 'C15': check_C15, 'C01': check_C01, 'C02': check_C02, 'C07': check_C07, 'C09': check_C09, 'C16': check_C16, 'C17': check_C17, 'C18': check_C18, 'C20': check_C20, 'C08': check_C08, 'C10': check_C10, 'C11': check_C11, 'C03': check_C03, 'C04': check_C04, 'C05': check_C05, 'C06': check_C06}
 
 
 def run(pid, tier, seed, replay=None):
